@@ -56,7 +56,7 @@ Definition in_scope (c : call) : bool :=
   | CMulti X ms sp start =>
       valid_t X && forallb (motif_ok X) ms && (0 <? length ms)%nat
       && (length sp =? length ms - 1)%nat
-      && forallb (fun l => (0 <=? l) && (l <? Z.of_nat (tL X))) sp &&
+      && forallb (fun l => 0 <=? l) sp &&
       (let n := sumZ sp + sumZ (map (fun m => Z.of_nat (tL m)) ms) in
        let p := start_of (Z.of_nat (tL X) / 2 - n / 2) start in
        forallb (fun mp => span_in (tL X) (snd mp) (tL (fst mp))) (combine ms (positions ms sp p)))
